@@ -458,6 +458,19 @@ void *__wrap_calloc(size_t a, size_t b) { void *p = __real_calloc(a, b); heap_ad
 void *__wrap_realloc(void *o, size_t n) { heap_del(o); void *p = __real_realloc(o, n); heap_add(p, n, (uintptr_t)__builtin_return_address(0)); return p; }
 void __wrap_free(void *p) { heap_del(p); __real_free(p); }
 
+// The programs run with an empty environment; in some runs every variable that program code itself asks for is "set" (to "1"),
+// so that whatever hides behind a debug switch runs (cooperative fault point; libc's own lookups are not affected)
+char *__real_getenv(const char *);
+char *__real_secure_getenv(const char *);
+static char *net_env_answer(uintptr_t pc, char *real) {
+    if (!in_sim() || !sim::g_symtab.is_repo(pc)) return real;
+    g_world->count("ev.getenv_by_program");
+    static char one[] = "1";
+    return g_world->env_on ? one : nullptr;
+}
+char *__wrap_getenv(const char *n) { return net_env_answer((uintptr_t)__builtin_return_address(0), __real_getenv(n)); }
+char *__wrap_secure_getenv(const char *n) { return net_env_answer((uintptr_t)__builtin_return_address(0), __real_secure_getenv(n)); }
+
 int __wrap_socket(int domain, int type, int protocol) {
     if (!in_sim()) return __real_socket(domain, type, protocol);
     World &w = *g_world;
@@ -541,6 +554,8 @@ int __wrap_setsockopt(int fd, int level, int optname, const void *optval, sockle
         e->memberships.push_back(std::vector<uint8_t>(m->mr_address, m->mr_address + 6));
     } else if (level == SOL_CAN_RAW && optname == CAN_RAW_FD_FRAMES && optlen >= sizeof(int)) {
         e->canfd_enabled = *(const int *)optval != 0;
+    } else if (level == SOL_CAN_RAW && optname == CAN_RAW_LOOPBACK && optlen >= sizeof(int)) {
+        e->can_loopback = *(const int *)optval != 0;
     } else if (level == SOL_CAN_RAW && optname == CAN_RAW_FILTER) {
         // as the kernel does: optlen / sizeof(struct can_filter) filters are installed (a length of 0 installs none: nothing is received)
         size_t n = optlen / sizeof(struct can_filter);
@@ -780,6 +795,11 @@ ssize_t __wrap_write(int fd, const void *buf, size_t len) {
                 return -1;
             }
             e->tx_busy_until += w.can_tx_ns;
+        }
+        if (!e->can_loopback) {  // vcan0/vcan1 are virtual interfaces: there is no wire, local delivery is all there is
+            w.count("ev.can_write_without_loopback");
+            w.log("can-write-no-loopback", c.can_id);
+            return (ssize_t)len;
         }
         if (e->bus >= 0) w.bus_log[e->bus].push_back(c);
         w.log("can-write", c.can_id, (uint64_t)c.len | ((uint64_t)c.flags << 8) | ((uint64_t)c.fd << 16), c.data, std::min<size_t>(c.len, 64));
